@@ -27,6 +27,7 @@ mod reflex;
 mod sq;
 mod sqlparse;
 mod stmt;
+mod ddl;
 mod util;
 
 use std::collections::{BTreeMap, HashSet};
